@@ -206,6 +206,12 @@ func (m *ModelOracle) walk(v any, s jx.J, path []any, st *walkState, depth int) 
 			if target, _ := m.defs[name].(jx.J); target != nil {
 				if d, _ := target["discriminator"].(string); d != "" {
 					st.poly = append(st.poly, polySub{val: v, base: name})
+					// keep walking with the subtype's schema, so that its properties are seen
+					if sub, perr := m.subtypeFor(name, v); perr == "" && sub != name {
+						if ss, _ := m.defs[sub].(jx.J); ss != nil {
+							s = ss
+						}
+					}
 				}
 			}
 		}
